@@ -88,6 +88,18 @@ def _self_attr(node: ast.AST, obj: str = 'self') -> Optional[str]:
     return None
 
 
+def _properties(cls: ast.ClassDef) -> dict[str, ast.expr]:
+    """Read-only view of the class's properties: name -> the expression the getter returns (getters whose body is a
+    docstring plus one `return`).  Other getters map to themselves called opaquely (absent from the dict)."""
+    out: dict[str, ast.expr] = {}
+    for n in cls.body:
+        if isinstance(n, ast.FunctionDef) and any(ast.unparse(d) == 'property' for d in n.decorator_list):
+            body = [st for st in n.body if not (isinstance(st, ast.Expr) and isinstance(st.value, ast.Constant))]
+            if len(body) == 1 and isinstance(body[0], ast.Return) and body[0].value is not None:
+                out[n.name] = body[0].value
+    return out
+
+
 class ClassInfo:
     """fields (ordered), kinds, and for each constructor parameter: the field it feeds and the wrap applied."""
 
@@ -99,6 +111,12 @@ class ClassInfo:
         self.kwonly: list[str] = []
         self.feeds: dict[str, tuple[str, str]] = {}       # param -> (field, wrap) wrap in direct|container|deepconv|newid
         self.ann: dict[str, Optional[str]] = {}
+        # round 3: everything needed to SPECIALISE the constructor to one call (see `specialise`)
+        self.defaults: dict[str, Optional[ast.expr]] = {}                     # param -> default expression (None: required)
+        self.guarded_stores: dict[str, list[tuple[ast.expr, list[tuple[ast.expr, bool]]]]] = {}   # field -> [(value, [(test, polarity)])]
+        self.locals: dict[str, ast.expr] = {}
+        self.loop_fed: set[str] = set()                                       # parameters consumed by a recognised loop
+        self.props: dict[str, ast.expr] = _properties(cls)                    # read-only view: property -> returned expression
         if _is_attrs(cls):
             self.fields = []
             for n in cls.body:
@@ -127,6 +145,11 @@ class ClassInfo:
             raise TranslateError(f'{cls.name}.__init__: *args/**kwargs not supported')
         self.params = [x.arg for x in a.args[1:]]
         self.kwonly = [x.arg for x in a.kwonlyargs]
+        pos = a.args[1:]
+        for x, d in zip(pos, [None] * (len(pos) - len(a.defaults)) + list(a.defaults)):
+            self.defaults[x.arg] = d
+        for x, d in zip(a.kwonlyargs, a.kw_defaults):
+            self.defaults[x.arg] = d
         pann = {x.arg: (ast.unparse(x.annotation) if x.annotation is not None else None) for x in a.args[1:] + a.kwonlyargs}
         allp = set(self.params) | set(self.kwonly)
         stores: dict[str, list[ast.expr]] = {}
@@ -134,7 +157,7 @@ class ClassInfo:
         loops: list[ast.For] = []
         inner_ann: dict[str, str] = {}
 
-        def scan(body: list[ast.stmt]) -> None:
+        def scan(body: list[ast.stmt], tests: list[tuple[ast.expr, bool]] = []) -> None:
             for st in body:
                 if isinstance(st, ast.Assign):
                     for t in st.targets:
@@ -143,18 +166,20 @@ class ClassInfo:
                             f = _self_attr(tt)
                             if f is not None:
                                 stores.setdefault(f, []).append(st.value)
+                                self.guarded_stores.setdefault(f, []).append((st.value, list(tests)))
                             elif isinstance(tt, ast.Name):
                                 local[tt.id] = st.value
                 elif isinstance(st, ast.AnnAssign):
                     f = _self_attr(st.target)
                     if f is not None and st.value is not None:
                         stores.setdefault(f, []).append(st.value)
+                        self.guarded_stores.setdefault(f, []).append((st.value, list(tests)))
                         inner_ann[f] = ast.unparse(st.annotation)
                     elif isinstance(st.target, ast.Name) and st.value is not None:
                         local[st.target.id] = st.value
                 elif isinstance(st, ast.If):
-                    scan(st.body)
-                    scan(st.orelse)
+                    scan(st.body, tests + [(st.test, True)])
+                    scan(st.orelse, tests + [(st.test, False)])
                 elif isinstance(st, ast.For):
                     loops.append(st)
                 elif isinstance(st, (ast.Expr, ast.Raise, ast.Pass)):
@@ -162,6 +187,7 @@ class ClassInfo:
                 else:
                     raise TranslateError(f'{cls.name}.__init__: unsupported statement {type(st).__name__} (line {st.lineno})')
         scan(init.body)
+        self.locals = local
         slots = _slots(cls)
         self.fields = slots if slots is not None else list(stores)
         for f in self.fields:
@@ -182,8 +208,10 @@ class ClassInfo:
             it = ast.unparse(lp.iter)
             if cls.name == 'Entity' and it == 'keys.items()' and ast.unparse(lp.body[0]) == 'self[k] = v' and len(lp.body) == 1:
                 self.feeds['keys'] = ('_keys', 'container')
+                self.loop_fed.add('keys')
             elif cls.name == 'EntityFixup' and it in ('fixup', 'extra_vals'):
                 self.feeds.setdefault('fixup', ('_fixup', 'container'))
+                self.loop_fed.add('fixup')
             else:
                 raise TranslateError(f'{cls.name}.__init__: unrecognised loop over `{it}` (line {lp.lineno})')
         for f in self.fields:
@@ -197,19 +225,37 @@ class ClassInfo:
                         a0 = pann[p]
             self.ann[f] = a0
 
-    def _feed(self, v: ast.expr, params: set[str], local: dict[str, ast.expr]) -> Optional[tuple[str, str]]:
-        """Which parameter feeds this right-hand side, and through which wrap."""
+    def _feed(self, v: ast.expr, params: set[str], local: dict[str, ast.expr],
+              spec: Optional['Spec'] = None) -> Optional[tuple[str, str]]:
+        """Which parameter feeds this right-hand side, and through which wrap.  With a `spec` (one concrete call:
+        which parameters are bound to what) conditionals are decided by partial evaluation where possible; where not,
+        the parameters of the test are recorded as GUARDS of the store (`spec.guards`), and `p or default` records
+        that the value survives only when truthy (`spec.ordefault`)."""
         if isinstance(v, ast.Name):
             if v.id in params:
                 return v.id, 'direct'
             if v.id in local:
-                return self._feed(local[v.id], params, local)
+                return self._feed(local[v.id], params, local, spec)
             return None
         if isinstance(v, ast.BoolOp) and isinstance(v.op, ast.Or):
-            return self._feed(v.values[0], params, local)
+            if spec is not None:
+                first = spec.peval(v.values[0], params, local)
+                if first is not UNKNOWN and not first and len(v.values) == 2:
+                    return self._feed(v.values[1], params, local, spec)      # `p or d` with p known falsy: d
+                if first is UNKNOWN:
+                    spec.ordefault = True
+            return self._feed(v.values[0], params, local, spec)
         if isinstance(v, ast.IfExp):
-            b = self._feed(v.body, params, local)
-            o = self._feed(v.orelse, params, local)
+            if spec is not None:
+                t0 = spec.peval(v.test, params, local)
+                if t0 is not UNKNOWN:
+                    return self._feed(v.body if t0 else v.orelse, params, local, spec)
+                if _truthiness_test(v.test):
+                    spec.truthy_tests |= _names_in(v.test, params, local)    # `X(p) if p else None`: survives when truthy
+                else:
+                    spec.guards |= _names_in(v.test, params, local)
+            b = self._feed(v.body, params, local, spec)
+            o = self._feed(v.orelse, params, local, spec)
             t = ast.unparse(v.test)
             if b and o and b != o:
                 raise TranslateError(f'{self.name}.__init__: conditional store mixes parameters ({ast.unparse(v)})')
@@ -223,46 +269,623 @@ class ClassInfo:
         if isinstance(v, ast.Call):
             fn = ast.unparse(v.func)
             if fn in ('list', 'set', 'EntityFixup', '_KeyDict', 'dict') and len(v.args) == 1 and not v.keywords:
-                inner = self._feed(v.args[0], params, local)
+                inner = self._feed(v.args[0], params, local, spec)
                 return (inner[0], 'container') if inner else None
             if fn == 'Vec' and len(v.args) == 1:
-                inner = self._feed(v.args[0], params, local)
+                inner = self._feed(v.args[0], params, local, spec)
                 return (inner[0], 'deepconv') if inner else None
             if fn == 'conv_kv' and len(v.args) == 1:
-                inner = self._feed(v.args[0], params, local)
+                inner = self._feed(v.args[0], params, local, spec)
                 return (inner[0], 'direct') if inner else None
             if fn.endswith('.get_id') and len(v.args) == 1:
-                inner = self._feed(v.args[0], params, local)
+                inner = self._feed(v.args[0], params, local, spec)
                 return (inner[0], 'newid') if inner else None
             if fn in ('_KeyDict', 'Vec', 'Array', 'UVAxis', 'set', 'list', 'dict') or not v.args:
                 return None
-            raise TranslateError(f'{self.name}.__init__: unrecognised call in a field store: `{ast.unparse(v)}`')
+            return self._derived(v, params, local, spec)
         if isinstance(v, (ast.Constant, ast.ListComp, ast.Attribute, ast.Dict, ast.JoinedStr, ast.Subscript)):
             if isinstance(v, ast.Subscript) and ast.unparse(v) == "targ['targetname']":
                 return 'targ', 'direct'
+            if isinstance(v, (ast.ListComp, ast.Dict, ast.JoinedStr, ast.Subscript)) and _names_in(v, params, local):
+                return self._derived(v, params, local, spec)
             return None
-        raise TranslateError(f'{self.name}.__init__: unrecognised field store `{ast.unparse(v)}`')
+        return self._derived(v, params, local, spec)
+
+    def _derived(self, v: ast.expr, params: set[str], local: dict[str, ast.expr], spec: Optional['Spec']) -> None:
+        """A store expression of no recognised value-preserving shape (arithmetic, comparison, `a and b`, an unknown
+        call, a formatted string ...): the field is COMPUTED from the parameters it mentions — none of them reaches it
+        as a value, all of them steer it.  For a specialised call they become guards of the field (the census row is
+        then `HMissing` with lossy flows, so `copy_covers_fields` / `copy_args_lossless` name the field)."""
+        if spec is not None:
+            spec.guards |= _names_in(v, params, local)
+        return None
+
+    def specialise(self, bound: dict[str, ast.expr], argann: dict[str, Optional[str]]) -> 'Specialised':
+        """The constructor SPECIALISED to one call: `bound` = the argument expression of every parameter the call
+        gives (in the caller's scope), `argann` = the static annotation of an argument that is a plain field read.
+        Parameters that are not given take their default.  For every field: which parameter's value reaches it (through
+        which wrap) in the branch this call selects, which parameters only STEER it (guards the call does not decide),
+        and whether the value survives only when truthy (`p or default`)."""
+        out = Specialised()
+        allp = set(self.params) | set(self.kwonly)
+        if not self.guarded_stores:          # attrs class: parameter = field, converters in self.feeds
+            for p, (f, wrap) in self.feeds.items():
+                out.field[f] = (p, wrap, set(), False)
+            return out
+        consts: dict[str, object] = {}
+        for p in allp:
+            e = bound.get(p, self.defaults.get(p))
+            if isinstance(e, ast.Constant):
+                consts[p] = e.value
+        for f, stores in self.guarded_stores.items():
+            chosen: list[tuple[Optional[tuple[str, str]], set[str], bool]] = []
+            stmt_guards: set[str] = set()
+            for v, tests in stores:
+                spec = Spec(consts, {p: argann.get(p) for p in bound}, set(bound))
+                live = True
+                for t, pol in tests:
+                    t0 = spec.peval(t, allp, self.locals)
+                    if t0 is UNKNOWN:
+                        if _truthiness_test(t):
+                            spec.truthy_tests |= _names_in(t, allp, self.locals)
+                        else:
+                            stmt_guards |= _names_in(t, allp, self.locals)
+                    elif bool(t0) != pol:
+                        live = False
+                        break
+                if not live:
+                    continue
+                fed = self._feed(v, allp, self.locals, spec)
+                chosen.append((fed, set(spec.guards), set(spec.truthy_tests), spec.ordefault))
+            feds = {c[0] for c in chosen if c[0] is not None}
+            if len(feds) > 1:
+                raise TranslateError(f'{self.name}.__init__: field {f} is fed by different parameters in branches this call '
+                                     f'does not decide: {sorted(feds)}')
+            fed = next(iter(feds)) if feds else None
+            # a truthiness test on the value parameter itself = "survives when truthy"; on another parameter = a guard
+            own = {fed[0]} if fed is not None else set()
+            truthy = set().union(*[c[2] for c in chosen]) if chosen else set()
+            guards = set().union(stmt_guards, *[c[1] for c in chosen]) | (truthy - own)
+            if fed is not None:
+                out.field[f] = (fed[0], fed[1], guards, any(c[3] for c in chosen) or bool(truthy & own))
+            elif guards:
+                out.field[f] = (None, 'direct', guards, False)
+        for p in self.loop_fed:
+            f, wrap = self.feeds[p]
+            out.field.setdefault(f, (p, wrap, set(), False))
+        return out
+
+
+class _Unknown:
+    def __repr__(self) -> str:
+        return 'UNKNOWN'
+
+
+UNKNOWN = _Unknown()
+_SCALAR_ANN = {'str', 'int', 'float', 'bool'}
+
+
+def _truthiness_operand(t: ast.expr) -> Optional[ast.expr]:
+    """`x`, `not x`, `x is None`, `x is not None` (x a name or attribute): tests of the value's presence, not of its
+    magnitude.  Returns x."""
+    if isinstance(t, ast.UnaryOp) and isinstance(t.op, ast.Not):
+        return _truthiness_operand(t.operand)
+    if isinstance(t, (ast.Name, ast.Attribute)):
+        return t
+    if isinstance(t, ast.Compare) and len(t.ops) == 1 and isinstance(t.ops[0], (ast.Is, ast.IsNot)) \
+            and isinstance(t.left, (ast.Name, ast.Attribute)) and isinstance(t.comparators[0], ast.Constant) \
+            and t.comparators[0].value is None:
+        return t.left
+    return None
+
+
+def _truthiness_test(t: ast.expr) -> bool:
+    return _truthiness_operand(t) is not None
+
+
+def _names_in(e: ast.AST, params: set[str], local: dict[str, ast.expr], _depth: int = 0) -> set[str]:
+    """Constructor parameters an expression depends on (constructor locals resolved)."""
+    out: set[str] = set()
+    if _depth > 8:
+        raise TranslateError('constructor local-name resolution too deep')
+    for n in ast.walk(e):
+        if isinstance(n, ast.Name):
+            if n.id in params:
+                out.add(n.id)
+            elif n.id in local:
+                out |= _names_in(local[n.id], params, local, _depth + 1)
+    return out
+
+
+class Specialised:
+    def __init__(self) -> None:
+        # field -> (value parameter or None, wrap, guard parameters, survives only when truthy)
+        self.field: dict[str, tuple[Optional[str], str, set[str], bool]] = {}
+
+
+class Spec:
+    """Partial evaluation of constructor tests for one call."""
+
+    def __init__(self, consts: dict[str, object], argann: dict[str, Optional[str]], bound: set[str]) -> None:
+        self.consts, self.argann, self.bound = consts, argann, bound
+        self.guards: set[str] = set()
+        self.truthy_tests: set[str] = set()
+        self.ordefault = False
+
+    def peval(self, e: ast.expr, params: set[str], local: dict[str, ast.expr], _depth: int = 0) -> object:
+        if _depth > 8:
+            return UNKNOWN
+        if isinstance(e, ast.Constant):
+            return e.value
+        if isinstance(e, ast.Name):
+            if e.id in self.consts:
+                return self.consts[e.id]
+            if e.id in local and e.id not in params:
+                return self.peval(local[e.id], params, local, _depth + 1)
+            return UNKNOWN
+        if isinstance(e, ast.UnaryOp) and isinstance(e.op, ast.Not):
+            x = self.peval(e.operand, params, local, _depth + 1)
+            return UNKNOWN if x is UNKNOWN else (not x)
+        if isinstance(e, ast.BoolOp):
+            vals = [self.peval(x, params, local, _depth + 1) for x in e.values]      # truthiness only
+            known = [bool(x) for x in vals if x is not UNKNOWN]
+            if isinstance(e.op, ast.And):
+                if not all(known):
+                    return False
+            elif any(known):
+                return True
+            return UNKNOWN if len(known) < len(vals) else isinstance(e.op, ast.And)
+        if isinstance(e, ast.Compare) and len(e.ops) == 1:
+            a, b = self.peval(e.left, params, local, _depth + 1), self.peval(e.comparators[0], params, local, _depth + 1)
+            if a is UNKNOWN or b is UNKNOWN:
+                return UNKNOWN
+            op = e.ops[0]
+            if isinstance(op, (ast.Is, ast.IsNot)) and (a is None or b is None or isinstance(a, bool) or isinstance(b, bool)):
+                return (a is b) == isinstance(op, ast.Is)
+            if isinstance(op, (ast.Eq, ast.NotEq)):
+                return (a == b) == isinstance(op, ast.Eq)
+            return UNKNOWN
+        if isinstance(e, ast.Call) and isinstance(e.func, ast.Name) and e.func.id == 'isinstance' and len(e.args) == 2 \
+                and isinstance(e.args[0], ast.Name) and isinstance(e.args[1], ast.Name):
+            p, t = e.args[0].id, e.args[1].id
+            if p in self.consts:
+                c = self.consts[p]
+                if t in _SCALAR_ANN:
+                    return type(c).__name__ == t or (t == 'int' and isinstance(c, bool))
+                return False if isinstance(c, (str, int, float, bool, type(None))) else UNKNOWN
+            ann = self.argann.get(p)
+            if ann is not None:
+                a = ann.replace("'", '')
+                if a == t:
+                    return True
+                if a in _SCALAR_ANN and t not in _SCALAR_ANN | {'object'}:
+                    return False            # the argument is a field declared str/int/float/bool: never an instance of a library class
+            return UNKNOWN
+        return UNKNOWN
+
+
+# ---------------------------------------------------------------------------------------------- normalisation
+def _assigned_names(fn: ast.FunctionDef) -> dict[str, int]:
+    """How often each local name is bound anywhere in the function (assignment, loop / comprehension / with / except
+    target, augmented assignment, walrus)."""
+    cnt: dict[str, int] = {}
+
+    def bump(t: ast.AST) -> None:
+        for n in ast.walk(t):
+            if isinstance(n, ast.Name):
+                cnt[n.id] = cnt.get(n.id, 0) + 1
+    for n in ast.walk(fn):
+        if isinstance(n, ast.Assign):
+            for t in n.targets:
+                if isinstance(t, (ast.Name, ast.Tuple, ast.List)):
+                    bump(t)
+        elif isinstance(n, (ast.AnnAssign, ast.AugAssign, ast.NamedExpr)) and isinstance(n.target, ast.Name):
+            bump(n.target)
+        elif isinstance(n, (ast.For, ast.comprehension)):
+            bump(n.target)
+        elif isinstance(n, ast.withitem) and n.optional_vars is not None:
+            bump(n.optional_vars)
+        elif isinstance(n, ast.ExceptHandler) and n.name:
+            cnt[n.name] = cnt.get(n.name, 0) + 1
+    return cnt
+
+
+def _pure_self_chain(e: ast.expr) -> bool:
+    """`self.a` / `self.a.b`: a read with no side effect and no fresh object."""
+    while isinstance(e, ast.Attribute):
+        e = e.value
+    return isinstance(e, ast.Name) and e.id == 'self'
+
+
+class _Subst(ast.NodeTransformer):
+    def __init__(self, mapping: dict[str, ast.expr]) -> None:
+        self.mapping = mapping
+
+    def visit_Name(self, node: ast.Name) -> ast.AST:
+        if isinstance(node.ctx, ast.Load) and node.id in self.mapping:
+            import copy as _c
+            return ast.copy_location(_c.deepcopy(self.mapping[node.id]), node)
+        return node
+
+
+def _simple_helper(fd: ast.AST) -> Optional[tuple[list[str], ast.expr]]:
+    """A function / method whose body is (docstring, asserts,) one `return <expr>`, with plain positional parameters
+    and no decorator other than `staticmethod`: (parameter names, returned expression).  Calling it IS evaluating that
+    expression with the arguments substituted."""
+    if not isinstance(fd, ast.FunctionDef):
+        return None
+    if any(ast.unparse(d) != 'staticmethod' for d in fd.decorator_list):
+        return None
+    a = fd.args
+    if a.vararg or a.kwarg or a.posonlyargs or a.kwonlyargs or a.defaults:
+        return None
+    body = [st for st in fd.body if not (isinstance(st, ast.Expr) and isinstance(st.value, ast.Constant))
+            and not isinstance(st, ast.Assert)]
+    if len(body) != 1 or not isinstance(body[0], ast.Return) or body[0].value is None:
+        return None
+    if any(isinstance(n, (ast.Yield, ast.YieldFrom, ast.Await, ast.NamedExpr, ast.Lambda)) for n in ast.walk(body[0].value)):
+        return None
+    return [x.arg for x in a.args], body[0].value
+
+
+def _pure_chain(e: ast.expr) -> bool:
+    """A name, constant or attribute chain on a name: may be evaluated any number of times."""
+    while isinstance(e, ast.Attribute):
+        e = e.value
+    return isinstance(e, (ast.Name, ast.Constant))
+
+
+def _bound_in_expr(e: ast.AST) -> set[str]:
+    return {n.id for g in ast.walk(e) if isinstance(g, ast.comprehension) for n in ast.walk(g.target) if isinstance(n, ast.Name)}
+
+
+def inline_call(call: ast.Call, params: list[str], body: ast.expr, recv: Optional[ast.expr] = None) -> Optional[ast.expr]:
+    """`helper(args)` -> the helper's returned expression with the arguments substituted (None when the substitution
+    would not be exact: missing / extra arguments, an argument with possible effects used more than once, a
+    comprehension variable of the helper captured by an argument).  `recv` = the receiver for a method (`self`)."""
+    import copy as _c
+    if any(isinstance(a, ast.Starred) for a in call.args) or any(k.arg is None for k in call.keywords):
+        return None
+    names = list(params)
+    bound: dict[str, ast.expr] = {}
+    if recv is not None:
+        if not names:
+            return None
+        bound[names.pop(0)] = recv
+    if len(call.args) > len(names):
+        return None
+    for p, a in zip(names, call.args):
+        bound[p] = a
+    for k in call.keywords:
+        if k.arg not in names or k.arg in bound:
+            return None
+        bound[k.arg] = k.value  # type: ignore[index]
+    if set(bound) != set(params):
+        return None
+    uses = {p: sum(1 for n in ast.walk(body) if isinstance(n, ast.Name) and n.id == p) for p in params}
+    captured = _bound_in_expr(body)
+    for p, a in bound.items():
+        if uses[p] > 1 and not _pure_chain(a):
+            return None
+        if captured & {n.id for n in ast.walk(a) if isinstance(n, ast.Name)}:
+            return None
+    if captured & set(params):
+        return None
+    return _Subst(bound).visit(_c.deepcopy(body))
+
+
+class _InlineHelpers(ast.NodeTransformer):
+    """(d) `helper(args)` for a module-level single-return helper and (e) `self.helper(args)` for a single-return
+    method of the same class are replaced by the returned expression (exact: see `inline_call`)."""
+
+    def __init__(self, module: Optional[ast.Module], cls: Optional[ast.ClassDef], fn: ast.FunctionDef) -> None:
+        self.funcs: dict[str, tuple[list[str], ast.expr]] = {}
+        self.meths: dict[str, tuple[list[str], ast.expr, bool]] = {}
+        shadow = set(_assigned_names(fn)) | {a.arg for a in fn.args.args + fn.args.kwonlyargs}
+        for n in (module.body if module is not None else []):
+            h = _simple_helper(n)
+            if h is not None and n.name not in shadow:  # type: ignore[attr-defined]
+                self.funcs[n.name] = h  # type: ignore[attr-defined]
+        for n in (cls.body if cls is not None else []):
+            h = _simple_helper(n)
+            if h is not None and n.name != fn.name and sum(1 for m in cls.body  # type: ignore[union-attr]
+                                                           if isinstance(m, ast.FunctionDef) and m.name == n.name) == 1:  # type: ignore[attr-defined]
+                static = any(ast.unparse(d) == 'staticmethod' for d in n.decorator_list)  # type: ignore[attr-defined]
+                self.meths[n.name] = (h[0], h[1], static)  # type: ignore[attr-defined]
+        self.changed = False
+
+    def visit_Call(self, node: ast.Call) -> ast.AST:
+        self.generic_visit(node)
+        new: Optional[ast.expr] = None
+        if isinstance(node.func, ast.Name) and node.func.id in self.funcs:
+            ps, body = self.funcs[node.func.id]
+            new = inline_call(node, ps, body)
+        elif isinstance(node.func, ast.Attribute) and isinstance(node.func.value, ast.Name) and node.func.value.id == 'self' \
+                and node.func.attr in self.meths:
+            ps, body, static = self.meths[node.func.attr]
+            new = inline_call(node, ps, body, None if static else node.func.value)
+        if new is None:
+            return node
+        self.changed = True
+        return ast.copy_location(new, node)
+
+
+def _pure_test(t: ast.expr) -> bool:
+    """A test that may be evaluated more than once: names, attributes, constants, comparisons, not/and/or, isinstance."""
+    for n in ast.walk(t):
+        if isinstance(n, ast.Call):
+            if not (isinstance(n.func, ast.Name) and n.func.id == 'isinstance'):
+                return False
+        elif not isinstance(n, (ast.Name, ast.Attribute, ast.Constant, ast.Compare, ast.BoolOp, ast.UnaryOp, ast.Load,
+                                ast.cmpop, ast.boolop, ast.unaryop, ast.Tuple)):
+            return False
+    return True
+
+
+def _ends_flow(body: list[ast.stmt]) -> bool:
+    return bool(body) and isinstance(body[-1], (ast.Return, ast.Raise))
+
+
+def normalise_fn(fn: ast.FunctionDef, module: Optional[ast.Module] = None, cls: Optional[ast.ClassDef] = None) -> ast.FunctionDef:
+    """Behaviour-preserving rewrites applied BEFORE a method is classified, so that equivalent spellings give the same
+    census (nothing here depends on the names or the text of the method):
+      (a) a local bound exactly once, at the top level of the body, to a pure read `self.a[.b]` in a method that never
+          stores into an attribute of `self`, is an ALIAS: its uses are replaced by the read;
+      (b) `x = []` followed by `for t in it: x.append(e)` (optionally under one `if c:`) is the comprehension
+          `x = [e for t in it if c]`;
+      (c) `obj.f = A if c else B` is `if c: obj.f = A` / `else: obj.f = B`;
+      (d) a call of a module-level helper whose body is one `return <expr>` is that expression (arguments substituted);
+      (e) likewise `self.helper(...)` for a single-return method of the same class (`return self.__copy__()` ...);
+      (g) `if c: n1 = A1; n2 = A2 else: n1 = B1; n2 = B2` (plain local names only, c pure and independent of them) is
+          `n1 = A1 if c else B1; n2 = A2 if c else B2`;
+      (h) a guard clause `if c: ...; return/raise` followed by more statements is `if c: ... else: <the rest>`;
+          `if not c: A else: B` is `if c: B else: A`."""
+    import copy as _c
+    fn = _c.deepcopy(fn)
+    if module is not None or cls is not None:
+        for _ in range(3):
+            inl = _InlineHelpers(module, cls, fn)
+            fn.body = [inl.visit(st) for st in fn.body]
+            if not inl.changed:
+                break
+        ast.fix_missing_locations(fn)
+    params = {a.arg for a in fn.args.args + fn.args.kwonlyargs}
+    stores_self = any(isinstance(n, (ast.Assign, ast.AugAssign, ast.AnnAssign)) and any(
+        isinstance(t, ast.Attribute) and _pure_self_chain(t) for t in (n.targets if isinstance(n, ast.Assign) else [n.target]))
+        for n in ast.walk(fn))
+    # (a)
+    if not stores_self:
+        cnt = _assigned_names(fn)
+
+        def inline(stmts: list[ast.stmt], alias: dict[str, ast.expr]) -> list[ast.stmt]:
+            alias = dict(alias)
+            body: list[ast.stmt] = []
+            for st in stmts:
+                if isinstance(st, ast.Assign) and len(st.targets) == 1 and isinstance(st.targets[0], ast.Name) \
+                        and st.targets[0].id not in params and cnt.get(st.targets[0].id) == 1 and _pure_self_chain(st.value) \
+                        and isinstance(st.value, ast.Attribute):
+                    alias[st.targets[0].id] = _Subst(alias).visit(st.value)
+                    continue
+                if isinstance(st, (ast.If, ast.For, ast.While, ast.With)):
+                    for fld in ('test', 'iter'):
+                        if hasattr(st, fld):
+                            setattr(st, fld, _Subst(alias).visit(getattr(st, fld)))
+                    if isinstance(st, ast.With):
+                        for it in st.items:
+                            it.context_expr = _Subst(alias).visit(it.context_expr)
+                    st.body = inline(st.body, alias)
+                    if getattr(st, 'orelse', None):
+                        st.orelse = inline(st.orelse, alias)
+                    body.append(st)
+                else:
+                    body.append(_Subst(alias).visit(st) if alias else st)
+            return body
+        fn.body = inline(fn.body, {})
+
+    # (b), (c), (g), (h), recursively through blocks
+    def simple_assigns(body: list[ast.stmt]) -> Optional[dict[str, ast.expr]]:
+        res: dict[str, ast.expr] = {}
+        for x in body:
+            if not (isinstance(x, ast.Assign) and len(x.targets) == 1 and isinstance(x.targets[0], ast.Name)) \
+                    or x.targets[0].id in res:  # type: ignore[union-attr]
+                return None
+            res[x.targets[0].id] = x.value  # type: ignore[union-attr]
+        return res or None
+
+    def block(stmts: list[ast.stmt]) -> list[ast.stmt]:
+        out: list[ast.stmt] = []
+        i = 0
+        stmts = list(stmts)
+        while i < len(stmts):
+            st = stmts[i]
+            nxt = stmts[i + 1] if i + 1 < len(stmts) else None
+            # (h) guard clause -> if/else; `if not c` -> flipped
+            if isinstance(st, ast.If) and not st.orelse and _ends_flow(st.body) and i + 1 < len(stmts):
+                st.orelse = stmts[i + 1:]
+                stmts = stmts[:i + 1]
+            if isinstance(st, ast.If) and st.orelse and isinstance(st.test, ast.UnaryOp) and isinstance(st.test.op, ast.Not):
+                st.test, st.body, st.orelse = st.test.operand, st.orelse, st.body
+            # (g) if/else binding the same plain locals -> conditional expressions
+            if isinstance(st, ast.If) and st.orelse and _pure_test(st.test):
+                ba, bb = simple_assigns(st.body), simple_assigns(st.orelse)
+                tn = {n.id for n in ast.walk(st.test) if isinstance(n, ast.Name)}
+                if ba is not None and bb is not None and set(ba) == set(bb) and not (tn & set(ba)) and not (set(ba) & params):
+                    for nm in ba:
+                        val = ast.IfExp(test=_c.deepcopy(st.test), body=ba[nm], orelse=bb[nm])
+                        out.append(ast.fix_missing_locations(ast.copy_location(
+                            ast.Assign(targets=[ast.Name(id=nm, ctx=ast.Store())], value=val), st)))
+                    i += 1
+                    continue
+            if isinstance(st, ast.Assign) and len(st.targets) == 1 and isinstance(st.targets[0], ast.Name) \
+                    and isinstance(st.value, ast.List) and not st.value.elts and isinstance(nxt, ast.For) and not nxt.orelse \
+                    and len(nxt.body) == 1:
+                x = st.targets[0].id
+                inner, conds = nxt.body[0], []
+                if isinstance(inner, ast.If) and not inner.orelse and len(inner.body) == 1:
+                    conds, inner = [inner.test], inner.body[0]
+                if isinstance(inner, ast.Expr) and isinstance(inner.value, ast.Call) and ast.unparse(inner.value.func) == f'{x}.append' \
+                        and len(inner.value.args) == 1 and not inner.value.keywords \
+                        and not any(isinstance(n, ast.Name) and n.id == x for n in ast.walk(inner.value.args[0])) \
+                        and not any(isinstance(n, ast.Name) and n.id == x for c in conds + [nxt.iter] for n in ast.walk(c)):
+                    comp = ast.ListComp(elt=inner.value.args[0],
+                                        generators=[ast.comprehension(target=nxt.target, iter=nxt.iter, ifs=conds, is_async=0)])
+                    out.append(ast.fix_missing_locations(ast.copy_location(ast.Assign(targets=[st.targets[0]], value=comp), st)))
+                    i += 2
+                    continue
+            if isinstance(st, ast.Assign) and len(st.targets) == 1 and isinstance(st.targets[0], ast.Attribute) \
+                    and isinstance(st.value, ast.IfExp):
+                a = ast.copy_location(ast.Assign(targets=[_c.deepcopy(st.targets[0])], value=st.value.body), st)
+                b = ast.copy_location(ast.Assign(targets=[_c.deepcopy(st.targets[0])], value=st.value.orelse), st)
+                out.append(ast.fix_missing_locations(ast.copy_location(ast.If(test=st.value.test, body=[a], orelse=[b]), st)))
+                i += 1
+                continue
+            if isinstance(st, (ast.If, ast.For, ast.While, ast.With)):
+                st.body = block(st.body)
+                if getattr(st, 'orelse', None):
+                    st.orelse = block(st.orelse)
+            out.append(st)
+            i += 1
+        return out
+    fn.body = block(fn.body)
+    return fn
 
 
 # ---------------------------------------------------------------------------------------------- argument classification
 SHALLOW_BUILDERS = ('attrs.evolve', 'attr.evolve', 'copy.copy', 'dataclasses.replace')
 
 
-def src_reads(e: ast.AST, src: str, env: dict[str, ast.expr], _depth: int = 0) -> list[str]:
+def src_reads(e: ast.AST, src: str, env: dict[str, ast.expr], info: Optional['ClassInfo'] = None, _depth: int = 0) -> list[str]:
     """The fields of the source object (`<src>.X`) an expression reads, local names resolved through `env`
-    (ordered, without duplicates).  This is what decides FROM WHICH field a field of the copy is built."""
+    (ordered, without duplicates).  This is what decides FROM WHICH field a field of the copy is built.
+    A property whose getter is just `return self.g` (an alias) counts as a read of g; any other property keeps its
+    own name (which is no field: the source check then rejects the row)."""
     if _depth > 8:
         raise TranslateError('src_reads: local-name resolution too deep')
     out: list[str] = []
     for n in ast.walk(e):
         f = _self_attr(n, src)
+        if f is not None and info is not None and f not in info.fields and f in info.props \
+                and _self_attr(info.props[f], 'self') is not None:
+            f = _self_attr(info.props[f], 'self')
         if f is not None and f not in out:
             out.append(f)
         elif isinstance(n, ast.Name) and n.id in env and n.id != src:
-            for g in src_reads(env[n.id], src, {k: v for k, v in env.items() if k != n.id}, _depth + 1):
+            for g in src_reads(env[n.id], src, {k: v for k, v in env.items() if k != n.id}, info, _depth + 1):
                 if g not in out:
                     out.append(g)
     return out
+
+
+COPYLIKE_METHODS = {'copy', 'copy_values', 'values', 'items', '__copy__', '__deepcopy__'}
+VALUE_CALLS = {'list', 'set', 'dict', 'tuple', 'frozenset', 'Vec', 'Array', 'sorted', 'attrs.evolve', 'attr.evolve',
+               'copy.copy', 'copy.deepcopy', 'dataclasses.replace'}
+_MODE_RANK = {'ident': 0, 'presence': 1, 'ordefault': 1, 'guard': 2, 'derived': 3}
+
+
+def src_flows(e: ast.AST, src: str, env: dict[str, ast.expr], info: Optional['ClassInfo'], classes: dict[str, 'ClassInfo'],
+              mode: str = 'ident', _depth: int = 0) -> list[tuple[str, str]]:
+    """HOW the fields of the source object (`<src>.X`) flow into an expression: (field, mode) with mode
+    ident (the value itself, possibly copied / re-wrapped in a container), presence (`x is not None` / truthiness of
+    the value steering a conditional), guard (any other test steering a conditional) or
+    derived (goes through a comparison, arithmetic, formatting, slicing, projection or an unknown call: the value
+    cannot in general be recovered).  Properties of the source class are read THROUGH (their getter inlined)."""
+    if _depth > 10:
+        raise TranslateError('src_flows: resolution too deep')
+    out: list[tuple[str, str]] = []
+
+    def add(items: list[tuple[str, str]]) -> None:
+        for it in items:
+            if it not in out:
+                out.append(it)
+
+    def worse(m: str) -> str:
+        return m if _MODE_RANK[m] >= _MODE_RANK[mode] else mode
+
+    def go(x: ast.AST, m: str) -> None:
+        add(src_flows(x, src, env, info, classes, m, _depth + 1))
+    f = _self_attr(e, src)
+    if f is not None:
+        if info is not None and f not in info.fields and f in info.props:
+            add(src_flows(info.props[f], 'self', {}, info, classes, mode, _depth + 1) if src == 'self' else
+                src_flows(_rename(info.props[f], 'self', src), src, {}, info, classes, mode, _depth + 1))
+        else:
+            add([(f, mode)])
+        return out
+    if isinstance(e, ast.Name):
+        if e.id in env and e.id != src:
+            add(src_flows(env[e.id], src, {k: v for k, v in env.items() if k != e.id}, info, classes, mode, _depth + 1))
+        return out
+    if isinstance(e, ast.Constant):
+        return out
+    if isinstance(e, ast.IfExp):
+        opnd = _truthiness_operand(e.test)
+        if opnd is not None:
+            go(opnd, worse('presence'))
+        else:
+            go(e.test, worse('guard'))
+        go(e.body, mode)
+        go(e.orelse, mode)
+        return out
+    if isinstance(e, ast.BoolOp):
+        if isinstance(e.op, ast.Or) and len(e.values) == 2 and (isinstance(e.values[1], ast.Constant)
+                                                                 or ast.unparse(e.values[1]) in ('set()', '()', '[]', '{}')):
+            go(e.values[0], worse('ordefault'))       # `x or default`: x itself, when truthy
+            return out
+        if isinstance(e.op, ast.And):
+            for x in e.values:
+                go(x, worse('derived'))                # `a and b`: one of the two, depending on the other
+            return out
+        for x in e.values:
+            go(x, mode)
+        return out
+    if isinstance(e, ast.Call):
+        fn = e.func
+        fname = ast.unparse(fn)
+        if isinstance(fn, ast.Attribute) and fn.attr in COPYLIKE_METHODS:
+            go(fn.value, mode)
+            for a in list(e.args) + [k.value for k in e.keywords]:
+                go(a, worse('guard'))      # arguments of copy(): options (the map, id mappings), not the value
+            return out
+        if fname in VALUE_CALLS or (isinstance(fn, ast.Name) and fn.id in classes):
+            for a in list(e.args) + [k.value for k in e.keywords]:
+                go(a, mode)
+            return out
+        go(fn, worse('derived'))
+        for a in list(e.args) + [k.value for k in e.keywords]:
+            go(a, worse('derived'))
+        return out
+    if isinstance(e, (ast.ListComp, ast.SetComp, ast.GeneratorExp, ast.DictComp)):
+        for g in e.generators:
+            it = g.iter
+            if isinstance(it, ast.Subscript) and isinstance(it.slice, ast.Slice):
+                go(it.value, worse('derived'))
+            else:
+                go(it, mode)
+            for c in g.ifs:
+                go(c, worse('guard'))
+        for x in ([e.key, e.value] if isinstance(e, ast.DictComp) else [e.elt]):
+            go(x, mode)
+        return out
+    if isinstance(e, ast.Starred):
+        go(e.value, mode)
+        return out
+    if isinstance(e, (ast.Tuple, ast.List, ast.Set)):
+        for x in e.elts:
+            go(x, mode)
+        return out
+    for ch in ast.iter_child_nodes(e):       # comparison, arithmetic, f-string, subscript, projection ...: derived
+        if isinstance(ch, ast.expr):
+            go(ch, worse('derived'))
+    return out
+
+
+def _rename(e: ast.expr, old: str, new: str) -> ast.expr:
+    import copy as _c
+    e2 = _c.deepcopy(e)
+    for n in ast.walk(e2):
+        if isinstance(n, ast.Name) and n.id == old:
+            n.id = new
+    return e2
 
 
 def elem_class(ann: Optional[str]) -> Optional[str]:
@@ -281,14 +904,18 @@ class Census:
         self.how: dict[str, str] = {}
         self.detail: dict[str, str] = {}
         self.srcs: dict[str, list[str]] = {}      # field -> fields of the SOURCE object the expression reads
+        self.flows: dict[str, list[tuple[str, str]]] = {}   # field -> (source field, ident|presence|ordefault|guard|derived)
+        self.post_guards: dict[str, list[str]] = {}  # field -> tests (source text, over `self`) guarding its only store
         self.builder = 'ctor'                       # ctor | shallow (attrs.evolve / copy.copy: unspecified fields shared)
 
-    def set(self, field: str, how: str, expr: ast.AST | str, srcs: Optional[list[str]] = None) -> None:
+    def set(self, field: str, how: str, expr: ast.AST | str, srcs: Optional[list[str]] = None,
+            flows: Optional[list[tuple[str, str]]] = None) -> None:
         if field not in self.info.fields:
             raise TranslateError(f'{self.label}: copy stores unknown field {field}')
         self.how[field] = how
         self.detail[field] = expr if isinstance(expr, str) else ast.unparse(expr)
         self.srcs[field] = list(srcs) if srcs is not None else []
+        self.flows[field] = list(flows) if flows is not None else [(g, 'ident') for g in self.srcs[field]]
 
     def rows(self) -> list[tuple[str, str, str]]:
         return [(f, kind_of(self.info.name, f, self.info.ann.get(f)), self.how.get(f, 'HMissing')) for f in self.info.fields]
@@ -319,6 +946,8 @@ class CopyAnalysis:
             a, b = e.values
             if isinstance(a, ast.Name) and a.id in params and _self_attr(b, src) in ('map', 'vmf'):
                 return 'ctx'
+            if _self_attr(a, src) is not None and (isinstance(b, ast.Constant) or ast.unparse(b) in ('set()', '()', '[]', '{}')):
+                return 'share'        # `self.f or default`: the flow census records that only truthy values survive
             raise TranslateError(f'{label}: unrecognised `or` expression `{ast.unparse(e)}`')
         if isinstance(e, ast.IfExp):
             body = self.classify(e.body, src, env, params, label)
@@ -360,11 +989,11 @@ class CopyAnalysis:
                 return 'deep-ctor'
             raise TranslateError(f'{label}: unrecognised call `{ast.unparse(e)}`')
         if isinstance(e, (ast.ListComp, ast.DictComp)):
-            if len(e.generators) != 1 or e.generators[0].ifs:
+            if len(e.generators) != 1:
                 raise TranslateError(f'{label}: unrecognised comprehension `{ast.unparse(e)}`')
             g = e.generators[0]
             it = g.iter
-            partial = False
+            partial = bool(g.ifs)       # a filter: only part of the elements is carried over
             if isinstance(it, ast.Subscript) and isinstance(it.slice, ast.Slice) and _self_attr(it.value, src) is not None:
                 # a slice of the field: only part of the elements is carried over
                 it, partial = it.value, True
@@ -439,17 +1068,51 @@ class CopyAnalysis:
                 raise TranslateError(f'{label}: bad keyword {kw.arg}')
             bound[kw.arg] = kw.value
         saved, self.src_class = self.src_class, cname
+        fenv = {**self.rebind, **env}
+        # static annotation of every argument that is a plain read of a field of the source object
+        argann: dict[str, Optional[str]] = {}
         for p, a in bound.items():
-            if p not in info.feeds:
-                if cname == 'Output' and p == 'only_once':
-                    continue
+            a0, hops = a, 0
+            while isinstance(a0, ast.Name) and a0.id in fenv and hops < 8:
+                a0, hops = fenv[a0.id], hops + 1
+            f0 = _self_attr(a0, src)
+            if f0 is not None:
+                argann[p] = info.ann.get(f0)
+        # the constructor specialised to THIS call: which argument reaches which field, which arguments only steer it
+        sp = info.specialise(bound, argann)
+        used: set[str] = set()
+        for field, (p, wrap, guards, ordef) in sp.field.items():
+            gflows: list[tuple[str, str]] = []
+            for g in sorted(guards):
+                if g not in bound:
+                    raise TranslateError(f'{label}: {cname}.__init__ steers field {field} by parameter {g}, whose default '
+                                         f'`{ast.unparse(info.defaults[g]) if info.defaults.get(g) is not None else "<required>"}` cannot be decided')
+                used.add(g)
+                for x, m in src_flows(bound[g], src, fenv, info, self.classes):
+                    it = (x, m if m == 'derived' else 'guard')
+                    if it not in gflows:
+                        gflows.append(it)
+            if p is None or p not in bound:
+                if guards:
+                    cen.set(field, 'HMissing', 'steered by ' + ', '.join(f'{g}={ast.unparse(bound[g])}' for g in sorted(guards)) +
+                            ' (the value argument is not given)', [], gflows)
+                continue
+            used.add(p)
+            a = bound[p]
+            how = self.final_how(info, field, self.classify(a, src, env, params, label), wrap, label)
+            flows = src_flows(a, src, fenv, info, self.classes)
+            if ordef:
+                flows = [(x, 'ordefault' if m == 'ident' else m) for x, m in flows]
+            if guards and how not in ('HCtx', 'HNewId'):
+                how = 'HMissing'      # carried over only for the originals the steering argument lets through
+            cen.set(field, how, ast.unparse(a) + (''.join(f'   [steered by {g}={ast.unparse(bound[g])}]' for g in sorted(guards))),
+                    src_reads(a, src, fenv, info), flows + [g for g in gflows if g not in flows])
+        for p in bound:
+            if p not in used:
                 raise TranslateError(f'{label}: constructor parameter {p} feeds no field')
-            field, wrap = info.feeds[p]
-            cen.set(field, self.final_how(info, field, self.classify(a, src, env, params, label), wrap, label), a,
-                    src_reads(a, src, {**self.rebind, **env}))
         for field, e in post:
             cen.set(field, self.final_how(info, field, self.classify(e, src, env, params, label), 'direct', label), e,
-                    src_reads(e, src, {**self.rebind, **env}))
+                    src_reads(e, src, {**self.rebind, **env}, info), src_flows(e, src, {**self.rebind, **env}, info, self.classes))
         self.src_class = saved
         self.censuses.append(cen)
         return cen
@@ -482,10 +1145,11 @@ class CopyAnalysis:
                 raise TranslateError(f'{label}: shallow builder keyword {kw.arg} feeds no field')
             field, wrap = info.feeds[kw.arg]
             cen.set(field, self.final_how(info, field, self.classify(kw.value, src, env, params, label), wrap, label), kw.value,
-                    src_reads(kw.value, src, {**self.rebind, **env}))
+                    src_reads(kw.value, src, {**self.rebind, **env}, info),
+                    src_flows(kw.value, src, {**self.rebind, **env}, info, self.classes))
         for field, e in (post or []):
             cen.set(field, self.final_how(info, field, self.classify(e, src, env, params, label), 'direct', label), e,
-                    src_reads(e, src, {**self.rebind, **env}))
+                    src_reads(e, src, {**self.rebind, **env}, info), src_flows(e, src, {**self.rebind, **env}, info, self.classes))
         self.src_class = saved
         self.censuses.append(cen)
         return cen
@@ -493,8 +1157,23 @@ class CopyAnalysis:
     # ---- a copy() method that builds with a constructor call, optionally followed by `new.X = ...`
     def method_census(self, cname: str, mname: str = 'copy', label: Optional[str] = None) -> Census:
         cls = self.classes[cname].node
-        fn = _method(cls, mname)
+        fn = normalise_fn(_method(cls, mname), self.tree, cls)
         label = label or cname
+        # `return self.other()` (no arguments, `other` a parameterless method of the class): the method IS the other one
+        for _hop in range(3):
+            body0 = [st for st in fn.body if not (isinstance(st, ast.Expr) and isinstance(st.value, ast.Constant))
+                     and not isinstance(st, ast.Assert)]
+            if len(body0) == 1 and isinstance(body0[0], ast.Return) and isinstance(body0[0].value, ast.Call) \
+                    and not body0[0].value.args and not body0[0].value.keywords \
+                    and _self_attr(body0[0].value.func) is not None \
+                    and any(isinstance(n, ast.FunctionDef) and n.name == _self_attr(body0[0].value.func) for n in cls.body):
+                target = _method(cls, _self_attr(body0[0].value.func))  # type: ignore[arg-type]
+                if len(target.args.args) != 1 or target.args.kwonlyargs or target.args.vararg or target.args.kwarg \
+                        or target.decorator_list or target.name == fn.name:
+                    break
+                fn = normalise_fn(target, self.tree, cls)
+            else:
+                break
         params = {a.arg for a in fn.args.args[1:] + fn.args.kwonlyargs}
         env: dict[str, ast.expr] = {}
         call: Optional[ast.Call] = None
@@ -514,7 +1193,9 @@ class CopyAnalysis:
                 and isinstance(e.args[0], ast.Name) and e.args[0].id == 'self'
         shallow: list[ast.Call] = []
 
-        def scan(body: list[ast.stmt], guarded: bool) -> None:
+        post_guards: dict[str, list[list]] = {}
+
+        def scan(body: list[ast.stmt], guarded: list) -> None:
             nonlocal call, newvar, raw_new
             for st in body:
                 if isinstance(st, ast.Expr) and isinstance(st.value, ast.Constant):
@@ -552,6 +1233,7 @@ class CopyAnalysis:
                         continue
                     if newvar is not None and _self_attr(t, newvar) is not None:
                         post.append((_self_attr(t, newvar), st.value))  # type: ignore[arg-type]
+                        post_guards.setdefault(_self_attr(t, newvar), []).append(list(guarded))  # type: ignore[arg-type]
                         continue
                     if isinstance(t, ast.Subscript) and isinstance(t.value, ast.Name) and t.value.id in params:
                         continue      # side_mapping[self.id] = new.id : bookkeeping in a caller-supplied mapping
@@ -566,39 +1248,63 @@ class CopyAnalysis:
                         # both branches must store the same fields; the isinstance(list) branch decides for containers
                         if not test.startswith('isinstance(self.'):
                             raise TranslateError(f'{label}: unrecognised if/else `{test}`')
-                        scan(st.body, True)
+                        scan(st.body, guarded)         # both branches store the field: not conditional
                         for s2 in st.orelse:
+                            if isinstance(s2, ast.Return) and isinstance(s2.value, ast.Name) and s2.value.id == newvar:
+                                continue      # both branches end in `return <the copy>` (guard-clause form)
                             if not (isinstance(s2, ast.Assign) and newvar and _self_attr(s2.targets[0], newvar)
                                     and _self_attr(s2.value, 'self') == _self_attr(s2.targets[0], newvar)):
                                 raise TranslateError(f'{label}: unrecognised else-branch `{ast.unparse(s2)}`')
                     else:
-                        scan(st.body, True)
+                        scan(st.body, guarded + [test])
                     continue
                 raise TranslateError(f'{label}: unsupported statement `{ast.unparse(st)[:60]}` (line {st.lineno})')
-        scan(fn.body, False)
+        scan(fn.body, [])
         if len(shallow) + (call is not None) + raw_new > 1:
             raise TranslateError(f'{label}: more than one way of building the copy')
+        # a field stored after construction only under `if <test on self>:` keeps the constructor's default otherwise
+        # (evidence for the run-time flow probe: which states of the original the row speaks about)
+        pg = {f: [g for g in gs[-1]] for f, gs in post_guards.items() if gs and gs[-1]}
         if shallow:
-            return self.shallow_census(label, cname, shallow[0], 'self', params, post=post, env=env)
+            cen = self.shallow_census(label, cname, shallow[0], 'self', params, post=post, env=env)
+            cen.post_guards = pg
+            return cen
         if call is None and not raw_new:
             raise TranslateError(f'{label}: no constructor call found')
         if call is not None:
-            return self.ctor_census(label, cname, call, 'self', env, params, post)
+            cen = self.ctor_census(label, cname, call, 'self', env, params, post)
+            cen.post_guards = pg
+            return cen
         info = self.classes[cname]
         cen = Census(label, info)
         saved, self.src_class = self.src_class, cname
         for field, e in post:
             cen.set(field, self.final_how(info, field, self.classify(e, 'self', env, params, label), 'direct', label), e,
-                    src_reads(e, 'self', {**self.rebind, **env}))
+                    src_reads(e, 'self', {**self.rebind, **env}, info),
+                    src_flows(e, 'self', {**self.rebind, **env}, info, self.classes))
         self.src_class = saved
+        cen.post_guards = pg
         self.censuses.append(cen)
         return cen
 
     def analyse_copy_values(self) -> None:
-        fn = _method(self.classes['EntityFixup'].node, 'copy_values')
-        rets = [s for s in fn.body if isinstance(s, ast.Return)]
-        if len(rets) != 1 or rets[0].value is None or len([s for s in fn.body if not (isinstance(s, ast.Expr) and isinstance(s.value, ast.Constant))]) != 1:
+        fn = normalise_fn(_method(self.classes['EntityFixup'].node, 'copy_values'), self.tree, self.classes['EntityFixup'].node)
+        stmts = [s for s in fn.body if not (isinstance(s, ast.Expr) and isinstance(s.value, ast.Constant))]
+        rets = [s for s in stmts if isinstance(s, ast.Return)]
+        if len(rets) != 1 or rets[0].value is None or stmts[-1] is not rets[0]:
             raise TranslateError('EntityFixup.copy_values: unrecognised body')
+        # `name = expr` ... `return name`: single-assignment locals are resolved
+        cnt = _assigned_names(fn)
+        cv_env: dict[str, ast.expr] = {}
+        for st in stmts[:-1]:
+            if isinstance(st, ast.Assign) and len(st.targets) == 1 and isinstance(st.targets[0], ast.Name) \
+                    and cnt.get(st.targets[0].id) == 1:
+                cv_env[st.targets[0].id] = st.value
+            else:
+                raise TranslateError(f'EntityFixup.copy_values: unrecognised statement `{ast.unparse(st)[:60]}`')
+        hops = 0
+        while isinstance(rets[0].value, ast.Name) and rets[0].value.id in cv_env and hops < 8:
+            rets[0].value, hops = cv_env[rets[0].value.id], hops + 1
         self.src_class = 'EntityFixup'
         how = self.classify(rets[0].value, 'self', {}, set(), 'EntityFixup_copy_values')
         self.src_class = ''
@@ -606,7 +1312,7 @@ class CopyAnalysis:
         info = self.classes['EntityFixup']
         cen = Census('EntityFixup_copy_values', info)
         cen.set('_fixup', 'HDeep' if self.copy_values_how == 'deep' else 'HShallow', rets[0].value,
-                src_reads(rets[0].value, 'self', {}))
+                src_reads(rets[0].value, 'self', {}, info), src_flows(rets[0].value, 'self', {}, info, self.classes))
         cen.set('_matcher', 'HShare', 'rebuilt lazily by the constructor (cache)', ['_matcher'])
         self.censuses.append(cen)
 
@@ -680,14 +1386,56 @@ def kv_receivers(tree: ast.Module) -> dict:
                         raise TranslateError(f'Keyvalues.{fn.name}: unrecognised use of _value `{f}` (line {st.lineno})')
         walk(fn.body, None)
         return res
+    def canon(fn: ast.FunctionDef) -> ast.FunctionDef:
+        """Name-independent form of `+` / `+=`: the single-assignment local bound to `self.copy()` is called `copy`;
+        single-assignment locals bound to `copy._value` / `self._value` (aliases of the child list) and to a pure test
+        used as an `if` condition are replaced by their definition."""
+        import copy as _c
+        fn = _c.deepcopy(fn)
+        cnt = _assigned_names(fn)
+        fparams = {a.arg for a in fn.args.args + fn.args.kwonlyargs}
+        used = {n.id for n in ast.walk(fn) if isinstance(n, ast.Name)}
+        cvs = [st.targets[0].id for st in ast.walk(fn) if isinstance(st, ast.Assign) and len(st.targets) == 1
+               and isinstance(st.targets[0], ast.Name) and ast.unparse(st.value) == 'self.copy()'
+               and cnt.get(st.targets[0].id) == 1 and st.targets[0].id not in fparams]
+        if len(cvs) == 1 and cvs[0] != 'copy' and 'copy' not in used:
+            for n in ast.walk(fn):
+                if isinstance(n, ast.Name) and n.id == cvs[0]:
+                    n.id = 'copy'
+        alias: dict[str, ast.expr] = {}
+
+        def strip(body: list[ast.stmt]) -> list[ast.stmt]:
+            out = []
+            for st in body:
+                if isinstance(st, ast.Assign) and len(st.targets) == 1 and isinstance(st.targets[0], ast.Name) \
+                        and cnt.get(st.targets[0].id) == 1 and st.targets[0].id not in fparams \
+                        and (ast.unparse(st.value) in ('copy._value', 'self._value')
+                             or (_pure_test(st.value) and isinstance(st.value, (ast.BoolOp, ast.Compare, ast.UnaryOp, ast.Call))
+                                 and not ({n.id for n in ast.walk(st.value) if isinstance(n, ast.Name)} & set(cnt)))):
+                    alias[st.targets[0].id] = _Subst(alias).visit(st.value)
+                    continue
+                if isinstance(st, (ast.If, ast.For, ast.While, ast.With)):
+                    for fld in ('test', 'iter'):
+                        if hasattr(st, fld):
+                            setattr(st, fld, _Subst(alias).visit(getattr(st, fld)))
+                    st.body = strip(st.body)
+                    if getattr(st, 'orelse', None):
+                        st.orelse = strip(st.orelse)
+                    out.append(st)
+                else:
+                    out.append(_Subst(alias).visit(st) if alias else st)
+            return out
+        fn.body = strip(fn.body)
+        return ast.fix_missing_locations(fn)
+
     # what the public append()/extend() do with their argument (used when +/+= delegate to them)
     via: dict[str, bool] = {}
     for name in ('append', 'extend'):
-        sites = appends(_method(cls, name), {})
+        sites = appends(canon(normalise_fn(_method(cls, name), tree, cls)), {})
         via[name] = bool(sites) and all(s[2] for s in sites)
     out['public_method_copies'] = via
     for name in ('__add__', '__iadd__', 'extend'):
-        fn = _method(cls, name)
+        fn = canon(normalise_fn(_method(cls, name), tree, cls))
         sites = appends(fn, via)
         if name == 'extend':
             if len(sites) != 1:
@@ -738,7 +1486,7 @@ def translate() -> tuple[str, dict]:
     if len(set(labels)) != len(labels):
         raise TranslateError(f'duplicate census labels {labels}')
     lines = ['(* GENERATED by translate/c09_copy.py from /repo/src/srctools/vmf.py, keyvalues.py. Do not edit. *)',
-             'From Coq Require Import List String Bool.', 'From SV Require Import SM.StoreCopy SM.KvAdd.',
+             'From Coq Require Import List String Bool.', 'From SV Require Import SM.StoreCopy SM.StoreCopyFlow SM.KvAdd.',
              'Import ListNotations.', 'Open Scope string_scope.', '']
     side: dict = {'classes': labels, 'census': {}, 'kv': kv, 'digests': {}, 'sources': {}, 'builder': {}}
     for c in censuses:
@@ -750,15 +1498,25 @@ def translate() -> tuple[str, dict]:
         lines.append(f'Definition sources_{c.label} : list (string * list string) := [')
         lines.append(';\n'.join('  ("%s", [%s])' % (f, '; '.join(f'"{g}"' for g in c.srcs.get(f, []))) for f, _k, _h in rows))
         lines.append('].')
+        # HOW the source fields flow into each field (through the constructor specialised to the call, properties inlined)
+        fl = {'ident': 'FIdent', 'presence': 'FPresence', 'ordefault': 'FOrDefault', 'guard': 'FGuard', 'derived': 'FDerived'}
+        lines.append(f'Definition flows_{c.label} : flowmap := [')
+        lines.append(';\n'.join('  ("%s", [%s])' % (f, '; '.join(f'("{g}", {fl[m]})' for g, m in c.flows.get(f, []))) for f, _k, _h in rows))
+        lines.append('].')
+        side.setdefault('flows', {})[c.label] = {f: [list(x) for x in c.flows.get(f, [])] for f, _k, _h in rows}
         side['census'][c.label] = [[f, k, h, c.detail.get(f, '<not set by copy>')] for f, k, h in rows]
         side['sources'][c.label] = {f: c.srcs.get(f, []) for f, _k, _h in rows}
         side['builder'][c.label] = c.builder
+        side.setdefault('post_guards', {})[c.label] = c.post_guards
         side.setdefault('class_of', {})[c.label] = c.info.name
     lines.append('Definition all_census : list (string * census) := [')
     lines.append(';\n'.join(f'  ("{c.label}", census_{c.label})' for c in censuses))
     lines.append('].')
     lines.append('Definition all_sources : list (string * list (string * list string)) := [')
     lines.append(';\n'.join(f'  ("{c.label}", sources_{c.label})' for c in censuses))
+    lines.append('].')
+    lines.append('Definition all_flows : list (string * flowmap) := [')
+    lines.append(';\n'.join(f'  ("{c.label}", flows_{c.label})' for c in censuses))
     lines.append('].')
     lines.append('Definition class_of_label : list (string * string) := [')
     lines.append(';\n'.join(f'  ("{c.label}", "{c.info.name}")' for c in censuses))
